@@ -262,6 +262,9 @@ def rule_scope_flags(rep: Report, repo: Repo):
             rep.fail(R, f"{MOD}::block_diagonalize scope lacks `{key}`", "", loc(scopes[0]))
     tb = d.get("two_block_optimized")
     if tb is not None:
+        from .resolve import env_at, resolved
+        tb_src = tb
+        tb = resolved(tb, env_at(scopes[0], f))
         from .e5 import canon_atom
         from .paths import eval_bool
         from itertools import product as iproduct
@@ -279,7 +282,7 @@ def rule_scope_flags(rep: Report, repo: Repo):
             if eval_bool(tb, atom) != (two and not fd):
                 ok = False
         rep.check(ok, R, f"{MOD}::block_diagonalize two_block_optimized <=> exactly two blocks and nothing fully diagonalised",
-                  norm(tb), loc(tb))
+                  norm(tb), loc(tb_src))
     cb = d.get("commuting_blocks")
     if cb is not None:
         src = [n for n in own_nodes(f) if isinstance(n, ast.Assign) and norm(n.targets[0]) == norm(cb)]
@@ -310,7 +313,7 @@ def rule_scope_flags(rep: Report, repo: Repo):
     for n in installs:
         blk = id(n._parent), any(n is s for s in getattr(n._parent, "body", []))
         pairs.setdefault(blk, set()).add((norm(n.targets[0].slice), norm(n.value)))
-    ok = len(pairs) >= 2 and all(v == {("'diag'", "diag"), ("'offdiag'", "offdiag")} for v in pairs.values())
+    ok = len(pairs) >= 1 and all(v == {("'diag'", "diag"), ("'offdiag'", "offdiag")} for v in pairs.values())
     rep.check(ok, R, f"{MOD}::block_diagonalize diag and offdiag are installed into the scope together",
               str(sorted(map(sorted, pairs.values()))), loc(installs[0] if installs else scopes[0]))
     # algorithm selection and the call
@@ -365,9 +368,38 @@ def rule_scope_flags(rep: Report, repo: Repo):
         t = norm(x)
         base = [energies] + ([alias] if alias else [])
         return any(t == (f"{b}.reshape(-1, 1)" if column else b) for b in base)
-    arms = [dc.value.body, dc.value.orelse] if isinstance(dc.value, ast.IfExp) else [dc.value]
+    from .paths import eval_bool as _eb
+    from .sem import Scope, bind_args, canon, outcomes
+    # arms of the value: (conditions [(test, polarity)], expression); a module-level helper is expanded
+    if isinstance(dc.value, ast.IfExp):
+        arm_list = [([(dc.value.test, True)], dc.value.body), ([(dc.value.test, False)], dc.value.orelse)]
+    elif isinstance(dc.value, ast.Call) and isinstance(dc.value.func, ast.Name) and Scope(repo.trees[MOD]).get(dc.value.func.id) is not None:
+        helper = Scope(repo.trees[MOD]).get(dc.value.func.id)
+        binding = bind_args(helper, dc.value)
+        if binding is None:
+            raise AnalysisError(R, f"cannot bind the call `{norm(dc.value)[:60]}`")
+        arm_list = []
+        for o in outcomes([s_ for s_ in helper.body], Scope(repo.trees[MOD]), env=binding, expand=False):
+            if o.kind != "return":
+                raise AnalysisError(R, f"{helper.name}: path without return")
+            arm_list.append((o.conds, o.value))
+    else:
+        arm_list = [([], dc.value)]
+
+    def symbolic_atom(sym):
+        def atom(n):
+            t = norm(canon(n))
+            for b in [energies] + ([alias] if alias else []):
+                t = t.replace(b, "E")
+            if t == "E.dtype == object":
+                return sym
+            if t == "E.dtype != object":
+                return not sym
+            return None
+        return atom
     preds = []
-    for arm in arms:
+    active = {True: [], False: []}
+    for conds, arm in arm_list:
         e = arm
         while isinstance(e, ast.Call) and isinstance(e.func, ast.Attribute) and e.func.attr == "astype":
             e = e.func.value
@@ -384,14 +416,15 @@ def rule_scope_flags(rep: Report, repo: Repo):
                 pair = (is_energy(a1, True) and is_energy(a2, False)) or (is_energy(a1, False) and is_energy(a2, True))
                 kind = ("exact", "E_a == E_b", None, pair)
         preds.append(kind)
-    ok = all(p[3] for p in preds) and any(p[0] == "numeric" and p[2] == "atol" for p in preds) and all(p[0] in ("numeric", "exact") for p in preds)
-    if ok and len(preds) == 2:
-        test = norm(dc.value.test)
-        for b in [energies] + ([alias] if alias else []):
-            test = test.replace(b, "E")
-        ok = test in ("E.dtype != object", "E.dtype == object") and ((preds[0][0] == "numeric") == (test == "E.dtype != object"))
-    elif ok:
-        ok = preds[0][0] == "numeric"
+        for sym in (True, False):
+            vals = [_eb(t, symbolic_atom(sym)) for t, _p in conds]
+            if any(v is None for v in vals):
+                raise AnalysisError(R, f"kept-pairs mask depends on a condition that is not understood: `{norm(conds[vals.index(None)][0])[:60]}`")
+            if all(v == p for v, (_t, p) in zip(vals, conds)):
+                active[sym].append(kind)
+    # numeric energies -> the tolerance predicate with `atol`; symbolic energies -> exact equality (or the same numeric predicate)
+    ok = all(p[3] for p in preds) and all(p[0] in ("numeric", "exact") for p in preds) \
+        and len(active[False]) == 1 and active[False][0][0] == "numeric" and active[False][0][2] == "atol" and len(active[True]) == 1
     rep.check(ok, R, f"{MOD}::block_diagonalize kept pairs of a fully diagonalised block are the degenerate pairs |E_a - E_b| < atol (exact only for symbolic energies)",
               str(preds), loc(ee[0]))
     sd = [c for c in own_nodes(f) if isinstance(c, ast.Call) and call_name(c) == "solve_sylvester_diagonal"]
